@@ -4,6 +4,7 @@ import copy
 from .. import common, trees
 
 LEVEL = "proof"
+EXTRA_LEAN_MODULES = ["Luqum.Props.GenVisit"]   # visit methods translated from the source (tools/pysym.py)
 RULE = ("trees (parsed and programmatic; operations with 0..4 operands, nesting depth <= 4, names, layout) x the "
         "four resolve targets x add_head in {' ', '', '\\n', ' \\t'}; non-trivial = the tree contains an implicit "
         "operation; distinct = distinct (tree, target, add_head)")
